@@ -184,6 +184,8 @@ def tridonic_case(seed, part, i, res):
         leave = r.choice([None] + list(range(join + 1, n_seg + 1)))
         subs.append((join, leave))
     logs = {k: [] for k in range(len(subs))}
+    quirk = r.random() < 0.5
+    quirk_log = []
     base_log = []
     own_wire_t = []
 
@@ -220,6 +222,23 @@ def tridonic_case(seed, part, i, res):
         for c in own:
             await d.send(c)
             await asyncio.sleep(0.6)
+        if own and quirk:
+            # firmware quirk documented in the driver: another master repeating our most recent frame is reported as if we
+            # had transmitted it (MODE_RESPONSE with the old sequence number); it is bus traffic like any other
+            last = own[-1]
+            lastseq = [x for (t_, x) in dev.writes if x[0] == 0x12][-1][1]
+            f_ = last.frame
+            rep = W.tridonic_report(W.TRI_RESPONSE, W.TRI_16 if len(f_) == 16 else W.TRI_24, f_.as_integer, lastseq)
+            dev.rx.append(rep)
+            quirk_log.append((round(w.now, 6), "F", len(f_), f_.as_integer))
+            if last.sendtwice:
+                await asyncio.sleep(0.03)
+                dev.rx.append(rep)
+                quirk_log.append((round(w.now, 6), "F", len(f_), f_.as_integer))
+            elif last.response is not None:
+                await asyncio.sleep(0.012)
+                dev.rx.append(W.tridonic_report(W.TRI_RESPONSE, W.TRI_8, 0x5C, lastseq))
+                quirk_log.append((round(w.now, 6), "B", 8, 0x5C))
         await asyncio.sleep(1.0)
         return True
 
@@ -248,6 +267,7 @@ def tridonic_case(seed, part, i, res):
             if last:
                 a = wv["answer"]
                 stream.append((round(wv["t"] + 0.007, 6), "N" if a is None else ("B" if a[0] == "ok" else "E"), 8, 0 if a is None else a[1]))
+        stream += quirk_log
         stream.sort(key=lambda x: x[0])
         expected, pending = watch_ref.parse(stream)
         if pending is not None:
@@ -308,6 +328,20 @@ def tridonic_case(seed, part, i, res):
         sim.close()
 
 
+def match_optional(got, items):
+    """got must be items in order, where items flagged optional (near a subscription boundary) may be absent."""
+    i = 0
+    for g in got:
+        while i < len(items) and items[i][0] != g:
+            if items[i][1]:
+                return False          # a required item was skipped
+            i += 1
+        if i >= len(items):
+            return False
+        i += 1
+    return not any(req for x, req in items[i:])
+
+
 def fmt(z):
     if z is None:
         return None
@@ -341,13 +375,37 @@ def serial_case(driver, seed, part, i, res):
         if k.startswith("edt"):
             res.hit("dt_context_cases")
     subs = []
-    for _ in range(r.choice([1, 2, 3])):
-        j, l = r.choice([0.1, 0.25]), r.choice([None, None, 0.7, 1.2, 2.5])
+    for _ in range(r.choice([1, 2, 3, 4])):
+        j = r.choice([0.1, 0.25, 0.1, 0.9, 1.6])
+        l = r.choice([None, None, 0.7, 1.2, 2.5])
         # keep subscription boundaries at least 60 ms away from any frame (the oracle needs no tie-break then)
+        while any(abs(t_ - j) < 0.06 for (t_, w_, v_) in frames):
+            j += 0.07
+        if l is not None and l <= j:
+            l = j + 0.8
         while l is not None and any(abs(t_ - l) < 0.06 for (t_, w_, v_) in frames):
             l += 0.07
-        subs.append((j, l))
+        subs.append((round(j, 4), None if l is None else round(l, 4)))
+    if r.random() < 0.3:
+        # several early subscribers, one of them leaves, a new one joins later while the others are still subscribed
+        n_early = r.choice([2, 3, 3])
+        leaver = r.randrange(n_early)
+        base = [[0.1 + 0.01 * k, None] for k in range(n_early)] + [[r.choice([0.9, 1.3]), None]]
+        base[leaver][1] = 0.7
+        subs = []
+        for j, l in base:
+            while any(abs(t_ - j) < 0.06 for (t_, w_, v_) in frames):
+                j += 0.07
+            while l is not None and any(abs(t_ - l) < 0.06 for (t_, w_, v_) in frames):
+                l += 0.07
+            subs.append((round(j, 4), None if l is None else round(l, 4)))
+        # make sure there is traffic after the newcomer joined
+        tail_t = max(max(j for j, l in subs) + 0.2, (frames[-1][0] if frames else 0) + 0.1)
+        for k in range(3):
+            frames.append((round(tail_t + 0.15 * k, 6), 16, 0x6100 + 2 * k * 256 + 0x100 * 0 + (k + 1)))
     queues = {}
+    left = {}
+    after_leave = []
     got = {k: [] for k in range(len(subs))}
 
     async def main(sim):
@@ -361,8 +419,9 @@ def serial_case(driver, seed, part, i, res):
             q = queues.pop(k)
             while not q.empty():
                 got[k].append((w.now, q.get_nowait()))
-            del q
-            gc.collect()
+            # unsubscribe through the registry's own method (the parent holds a strong reference, so dropping the child is not enough)
+            d._protocol.queue_rx_dali.del_handler(q)
+            left[k] = q
         for k, (j, l) in enumerate(subs):
             w.at(j, lambda k=k: join(k))
             if l is not None:
@@ -381,6 +440,9 @@ def serial_case(driver, seed, part, i, res):
         for k, q in queues.items():
             while not q.empty():
                 got[k].append((w.now, q.get_nowait()))
+        for k, q in left.items():
+            while not q.empty():
+                after_leave.append((k, q.get_nowait()))
         return True
 
     out, stalled = sim.run(main)
@@ -405,10 +467,11 @@ def serial_case(driver, seed, part, i, res):
             dt = (v_ & 0xFF) if (w_ == 16 and v_ >> 8 == 0xC1) else 0
         for k, (j, l) in enumerate(subs):
             hi = l if l is not None else float("inf")
-            want = [(w_, v_, n_, s_) for (t_, w_, v_, n_, s_) in expected if j <= t_ < hi]
+            items = [((w_, v_, n_, s_), (j + 0.06 <= t_ < hi - 0.06)) for (t_, w_, v_, n_, s_) in expected if j - 0.06 <= t_ < hi + 0.06]
+            want = [x for x, req in items if req]
             gk = [(len(c.frame), c.frame.as_integer, type(c).__name__, str(c)) for (t_, c) in got[k]]
             res.hit("serial_frames_compared", len(want))
-            if gk != want:
+            if not match_optional(gk, items):
                 n = next((m for m in range(min(len(gk), len(want))) if gk[m] != want[m]), min(len(gk), len(want)))
                 g = gk[n] if n < len(gk) else None
                 x = want[n] if n < len(want) else None
@@ -423,6 +486,8 @@ def serial_case(driver, seed, part, i, res):
                 res.violation(f"C20/{driver}/{key}", f"subscriber {k}: item {n} delivered {g}, expected {x}",
                               {**wit, "subscriber": k, "got": [str(z) for z in gk][:16], "want": [str(z) for z in want][:16]})
                 return
+        if after_leave:
+            res.violation(f"C20/{driver}/delivered-after-unsubscribe", f"subscriber {after_leave[0][0]} received {after_leave[0][1]} after it had unsubscribed", wit)
         if sim.loop.errors:
             res.violation(f"C20/{driver}/internal-error", f"exception in a callback/task: {sim.loop.errors[0]}", wit)
         if i == 0:
